@@ -1,16 +1,18 @@
 /-
-  C01 / C04 — `CMap2::one_sew` / `CMap2::one_unsew` of dim2/sews/one.rs, TRANSLATED from the source on every
-  run (`Gen/Sews2.lean`, written by tools/gen_lean.py), interpreted in the model's transaction monad, are EQUAL
-  as programs to the hand-written `oneSew2` / `oneUnsew2` of Model/Ops2.lean.  The functions they call are tied
+  C01 / C04 — `CMap2::one_sew` / `one_unsew` (dim2/sews/one.rs) and `two_sew` / `two_unsew` (dim2/sews/two.rs),
+  TRANSLATED from the source on every run (`Gen/Sews2.lean`, written by tools/gen_lean.py), interpreted in the
+  model's transaction monad, are EQUAL as programs to the hand-written `oneSew2` / `oneUnsew2` / `twoSew2` /
+  `twoUnsew2` of Model/Ops2.lean: every sew and unsew of a 2-map.  The functions they call are tied
   separately: the link cores in Props/C01Gen.lean, `AttrSparseVec::merge` / `split` in Props/C04Gen.lean, the
   images of the vertex orbit behind `vertex_id_transac` in Props/C03Gen.lean; `merge_attributes` /
   `split_attributes` (a loop over the registered storages) and the traversal itself stay hand-written.
 -/
 import Honeycomb.Gen.Sews2
 import Honeycomb.Model.Ops2
+import Honeycomb.Props.C01
 
 namespace HC.GenTie
-open HC
+open HC HC.C01
 variable {X : Type}
 
 /-- operand of a generated instruction: parameters, the null dart, bound variables -/
@@ -58,6 +60,22 @@ def interpSew (cfg : Cfg X) (n l r : Nat) : Nat → List Nat → List (Nat × Li
   | f + 1, env, (8, [a, k, j]) :: rest =>
       if sewArg l r env a = 0 then interpSew cfg n l r f env (rest.take k ++ rest.drop (k + j))
       else interpSew cfg n l r f env (rest.drop k)
+  | f + 1, env, (9, [a, b, k1, k2, k3, k4]) :: rest =>
+      let tail := rest.drop (k1 + k2 + k3 + k4)
+      if sewArg l r env a = 0 ∧ sewArg l r env b = 0 then interpSew cfg n l r f env (rest.take k1 ++ tail)
+      else if sewArg l r env a = 0 then interpSew cfg n l r f env ((rest.drop k1).take k2 ++ tail)
+      else if sewArg l r env b = 0 then interpSew cfg n l r f env ((rest.drop (k1 + k2)).take k3 ++ tail)
+      else interpSew cfg n l r f env ((rest.drop (k1 + k2 + k3)).take k4 ++ tail)
+  | f + 1, env, (10, [a]) :: rest => do
+      let v ← edgeId2 (sewArg l r env a)
+      interpSew cfg n l r f (env ++ [v]) rest
+  | f + 1, env, (11, [vl, vb1r, vb1l, vr, i, a, b]) :: rest => do
+      let pl ← rA 0 (sewArg l r env vl)
+      let pb1r ← rA 0 (sewArg l r env vb1r)
+      let pb1l ← rA 0 (sewArg l r env vb1l)
+      let pr ← rA 0 (sewArg l r env vr)
+      if badPair cfg pl pb1r pb1l pr then abort (errBadGeometry i (sewArg l r env a) (sewArg l r env b)) else
+      interpSew cfg n l r f env rest
   | _, _, _ => Prog.panic
 
 theorem bind_unit' (p : P X Unit) : p.bind (fun _ => Prog.ret ()) = p := Prog.bind_ret p
@@ -75,6 +93,36 @@ theorem C01_gen_oneUnsew2 (cfg : Cfg X) (n l : Nat) :
   simp only [Gen.oneUnsew2, interpSew, sewCore, sewArg, oneUnsew2, List.drop, List.take, List.getD, List.nil_append,
     List.cons_append, List.append_nil, Prog.bind_eq, Prog.pure_eq, bind_unit']
   rfl
+
+/-- **tie of `CMap2::two_sew`** (all four arms, the orientation test included) -/
+theorem C01_gen_twoSew2 (cfg : Cfg X) (n l r : Nat) :
+    interpSew cfg n l r 64 [] Gen.twoSew2 = twoSew2 cfg n l r := by
+  simp only [Gen.twoSew2, interpSew, sewCore, sewArg, twoSew2, List.drop, List.take, List.getD, List.nil_append,
+    List.cons_append, List.append_nil, Prog.bind_eq, Prog.pure_eq, bind_unit']
+  rfl
+
+/-- **tie of `CMap2::two_unsew`** (all four arms) -/
+theorem C01_gen_twoUnsew2 (cfg : Cfg X) (n l : Nat) :
+    interpSew cfg n l 0 64 [] Gen.twoUnsew2 = twoUnsew2 cfg n l := by
+  simp only [Gen.twoUnsew2, interpSew, sewCore, sewArg, twoUnsew2, List.drop, List.take, List.getD, List.nil_append,
+    List.cons_append, List.append_nil, Prog.bind_eq, Prog.pure_eq, bind_unit']
+  rfl
+
+/-- **C01 stated on the translated code**: every successful run of the translated `CMap2::one_sew` /
+    `one_unsew` on a well-formed 2-map with in-use arguments, for every attribute configuration, ends in a
+    well-formed map -/
+theorem C01_gen_one_sews_preserve_WF (cfg : Cfg X) (n l r : Nat) :
+    Safe (fun m : Map X => InUse m l ∧ InUse m r) (interpSew cfg n l r 16 [] Gen.oneSew2) ∧
+    Safe (fun m : Map X => InUse m l) (interpSew cfg n l 0 16 [] Gen.oneUnsew2) := by
+  rw [C01_gen_oneSew2, C01_gen_oneUnsew2]
+  exact ⟨safe_oneSew2 cfg n l r, safe_oneUnsew2 cfg n l⟩
+
+/-- the same for the translated `CMap2::two_sew` (distinct darts) / `two_unsew` -/
+theorem C01_gen_two_sews_preserve_WF (cfg : Cfg X) (n l r : Nat) :
+    Safe (fun m : Map X => InUse m l ∧ InUse m r ∧ l ≠ r) (interpSew cfg n l r 64 [] Gen.twoSew2) ∧
+    Safe (fun m : Map X => InUse m l) (interpSew cfg n l 0 64 [] Gen.twoUnsew2) := by
+  rw [C01_gen_twoSew2, C01_gen_twoUnsew2]
+  exact ⟨safe_twoSew2 cfg n l r, safe_twoUnsew2 cfg n l⟩
 
 /-- a list the interpreter does not understand is a panic, not a silent success -/
 example (cfg : Cfg X) (n l r : Nat) : interpSew cfg n l r 4 [] [(9, [])] = Prog.panic := rfl
